@@ -29,6 +29,7 @@ import (
 	"os/exec"
 	"runtime"
 	"strconv"
+	"strings"
 	"sync"
 	"time"
 
@@ -553,6 +554,22 @@ func runC17(r *Run) error {
 			ins = append(ins, in)
 		}
 	}
+	// very large populations (construction is where a library would be tempted to work in batches) and a wide
+	// start genome with many loose inputs (>= 15 genes, 8 disconnected sensors): one or two epochs each
+	for i, ps := range []int{1000, 1024, 1500, 2048} {
+		if i >= r.N(2, 4) {
+			break
+		}
+		in := newEpochInput(r, "C17", 30, 3, true)
+		in.Opts.PopSize, in.Epochs = ps+i, 1
+		ins = append(ins, in)
+	}
+	for i := 0; i < r.N(3, 30); i++ {
+		in := newEpochInput(r, "C17", 40, 6, true)
+		in.Start = map[string]string{"format": "plain", "text": c17WideStart()}
+		in.Opts.MutateConnectSensors = 0.5 + 0.5*r.Rng.Float64()
+		ins = append(ins, in)
+	}
 	traces := c17Check(r, ins, r.N(40, 110))
 	for i, in := range ins {
 		t := &traces[i]
@@ -624,4 +641,23 @@ func replayC17(r *Run, input []byte) error {
 	}
 	r.Res.Failures = fs
 	return nil
+}
+
+// c17WideStart: a bias, 24 inputs and 2 outputs; the bias and 16 inputs are connected (18 genes), 8 inputs are loose
+func c17WideStart() string {
+	var sb strings.Builder
+	sb.WriteString("genomestart 1\ntrait 1 0.1 0 0 0 0 0 0 0\n")
+	sb.WriteString("node 1 1 1 3 NullActivation\n")
+	for i := 2; i <= 25; i++ {
+		fmt.Fprintf(&sb, "node %d 1 1 1 NullActivation\n", i)
+	}
+	sb.WriteString("node 26 1 0 2 SigmoidSteepenedActivation\nnode 27 1 0 2 SigmoidSteepenedActivation\n")
+	innov := 1
+	for i := 1; i <= 17; i++ {
+		fmt.Fprintf(&sb, "gene 1 %d %d %v false %d 0 true\n", i, 26+i%2, 0.25*float64(i%7)-0.5, innov)
+		innov++
+	}
+	fmt.Fprintf(&sb, "gene 1 1 27 0.75 false %d 0 true\n", innov)
+	sb.WriteString("genomeend 1\n")
+	return sb.String()
 }
